@@ -207,7 +207,8 @@ fn check_listing(c: &Case, stdout: &[u8]) -> Result<(), Failure> {
     let map = prayer_times_dt_rng(&params, site.location(), &DateRange::from(c.start..=end));
     let text = String::from_utf8_lossy(stdout);
     // lenient parsing: the block of a date starts at the line that contains its Hijri date text and ends where the
-    // next date's block starts; inside it every prayer must have a line naming it together with its time (or Invalid)
+    // next date's block starts. If the block names the prayers, each name must be followed by its time (or Invalid); if
+    // it does not (a table with the names in a header row), the seven entries must follow the Hijri text in header order
     let lines: Vec<&str> = text.lines().collect();
     let dates: Vec<_> = map.iter().collect();
     let mut starts: Vec<usize> = Vec::with_capacity(dates.len());
@@ -228,22 +229,95 @@ fn check_listing(c: &Case, stdout: &[u8]) -> Result<(), Failure> {
             }
         }
     }
+    // column order of a tabular layout: a line before the first date that names all seven prayers
+    let header_order: Option<Vec<usize>> = lines[..starts.first().copied().unwrap_or(0)].iter().rev().find_map(|l| {
+        let pos: Vec<Option<usize>> = PRAYER_NAMES.iter().map(|n| l.find(n)).collect();
+        if pos.iter().all(|x| x.is_some()) {
+            let mut idx: Vec<usize> = (0..7).collect();
+            idx.sort_by_key(|&i| pos[i].unwrap());
+            Some(idx)
+        } else {
+            None
+        }
+    });
     for (i, (d, times)) in dates.iter().enumerate() {
         let end = if i + 1 < starts.len() { starts[i + 1] } else { lines.len() };
         let block = &lines[starts[i]..end];
-        for (pi, p) in PRAYERS.iter().enumerate() {
-            let want = match times[p] {
+        let want: Vec<String> = PRAYERS
+            .iter()
+            .map(|p| match times[p] {
                 Ok(pt) => pt.to_string().trim().to_string(),
                 Err(()) => "Invalid".to_string(),
-            };
-            let name = PRAYER_NAMES[pi];
-            let Some(line) = block.iter().skip(1).find(|l| l.contains(name)) else {
-                return Err(Failure::new(format!("listing:missing-entry:{}", name), format!("a line for {} on {}", name, d), block.join(" / ")));
-            };
-            // what follows the name on that line, without separators
-            let rest = line[line.find(name).unwrap() + name.len()..].trim_start_matches(|c: char| c == ':' || c == '-' || c == '=' || c.is_whitespace()).trim();
-            if rest != want {
-                return Err(Failure::new(format!("listing:wrong-entry:{}", name), format!("{} {} on {}", name, want, d), line.to_string()));
+            })
+            .collect();
+        let labelled = PRAYER_NAMES.iter().all(|n| block.iter().any(|l| l.contains(n)));
+        if labelled {
+            // one labelled entry per prayer: what follows the name must be its time (or Invalid)
+            for (pi, name) in PRAYER_NAMES.iter().enumerate() {
+                let line = block.iter().find(|l| l.contains(name)).unwrap();
+                let rest = line[line.find(name).unwrap() + name.len()..].trim_start_matches(|c: char| c == ':' || c == '-' || c == '=' || c == '|' || c.is_whitespace()).trim();
+                let rest = rest.trim_end_matches(|c: char| c == '|' || c.is_whitespace());
+                if rest != want[pi] {
+                    return Err(Failure::new(format!("listing:wrong-entry:{}", name), format!("{} {} on {}", name, want[pi], d), line.to_string()));
+                }
+            }
+            continue;
+        }
+        // unlabelled (tabular) layout: the seven entries follow the Hijri date text in the block, in the order of the
+        // header if there is one, otherwise in any order; an entry is matched as a whole token (not the tail of a longer time)
+        let hijri = HijriDate::from(**d).to_string();
+        let joined = block.join("\n");
+        let body = &joined[joined.find(&hijri).map(|x| x + hijri.len()).unwrap_or(0)..];
+        let find_token = |hay: &str, from: usize, tok: &str, used: &[(usize, usize)]| -> Option<usize> {
+            let mut at = from;
+            while let Some(off) = hay[at..].find(tok) {
+                let st_ = at + off;
+                let en = st_ + tok.len();
+                let before_ok = hay[..st_].chars().next_back().map_or(true, |c| !(c.is_ascii_digit() || c == ':'));
+                let after_ok = hay[en..].chars().next().map_or(true, |c| !(c.is_ascii_alphanumeric() || c == ':'));
+                let free = used.iter().all(|(a, b)| en <= *a || st_ >= *b);
+                if before_ok && after_ok && free {
+                    return Some(st_);
+                }
+                at = st_ + 1;
+                if at >= hay.len() {
+                    break;
+                }
+            }
+            None
+        };
+        match &header_order {
+            Some(order) => {
+                let mut from = 0usize;
+                for &pi in order {
+                    match find_token(body, from, &want[pi], &[]) {
+                        Some(p0) => from = p0 + want[pi].len(),
+                        None => {
+                            return Err(Failure::new(
+                                format!("listing:wrong-entry:{}", PRAYER_NAMES[pi]),
+                                format!("{} {} on {} (column order taken from the header line)", PRAYER_NAMES[pi], want[pi], d),
+                                block.join(" / "),
+                            ))
+                        }
+                    }
+                }
+            }
+            None => {
+                let mut used: Vec<(usize, usize)> = Vec::new();
+                let mut order: Vec<usize> = (0..7).collect();
+                order.sort_by_key(|&i| std::cmp::Reverse(want[i].len()));
+                for pi in order {
+                    match find_token(body, 0, &want[pi], &used) {
+                        Some(p0) => used.push((p0, p0 + want[pi].len())),
+                        None => {
+                            return Err(Failure::new(
+                                format!("listing:missing-entry:{}", PRAYER_NAMES[pi]),
+                                format!("an entry {} for {} on {}", want[pi], PRAYER_NAMES[pi], d),
+                                block.join(" / "),
+                            ))
+                        }
+                    }
+                }
             }
         }
     }
